@@ -1,4 +1,58 @@
-(* C11_Proofs.v — placeholder while the invariant proofs are being written (see C11_ProofsSafety.v) *)
-From Coq Require Import ZArith List.
-From PV Require Import Base.U64 C11.C11_Model.
-Lemma placeholder : True. Proof. exact I. Qed.
+(* C11_Proofs.v — the finding F12 as a theorem about the pinned code, and the examples.
+   The invariant proofs are in C11_ProofsSafety.v (no access after return) and
+   C11_ProofsResp.v (own response / failure isolation). *)
+From Coq Require Import ZArith List Bool Arith Lia.
+From PV Require Import Base.U64 C04.C04_Heap C11.C11_Model C11.C11_ProofsSafety.
+Import ListNotations.
+Local Open Scope Z_scope.
+
+(* ---- F12: caller 0 becomes the reader, caller 1 parks with a 50 ms deadline; the header carrying
+   caller 1's tag arrives at 30 ms, its body at 120 ms (virtual times are offsets from VSTART = 1000). *)
+Definition body (n : nat) (seed : Z) : list Z := map (fun j => (seed + Z.of_nat j) mod 251) (seq 0 n).
+Definition f12_calls : list call := [mkCall 0 MAX64 8; mkCall 0 50000 8].
+Definition f12_script : list sev :=
+  [SData 31000 (mk_hdr 2 16); SData 121000 (body 16 5); SData 131000 (mk_hdr 1 4 ++ body 4 9)].
+Definition f12_run (fix_ : bool) : dstate := run_case fix_ f12_calls f12_script 200 200.
+
+Definition dead_access (s : state) : bool := existsb (fun a => negb (a_live a)) (s_acc s).
+
+Lemma f12_pinned_code_dead_access : dead_access (d_st (f12_run false)) = true /\ d_fail (f12_run false) = false.
+Proof. vm_compute. split; reflexivity. Qed.
+
+(* the same script on the code with the fix: no dead access, both calls return, the map is empty *)
+Lemma f12_fixed_code_clean :
+  dead_access (d_st (f12_run true)) = false /\ d_fail (f12_run true) = false /\
+  s_map (d_st (f12_run true)) = [] /\
+  map (fun e => match e with TvRet t r _ _ now => Some (t, r, now) | _ => None end)
+      (filter (fun e => match e with TvRet _ _ _ _ _ => true | _ => false end) (rev (s_trace (d_st (f12_run true)))))
+  = [Some (0%nat, -1, 51000); Some (1%nat, -1, 51000)].
+Proof. vm_compute. repeat split; reflexivity. Qed.
+
+Lemma no_access_after_return_refuted_pinned :
+  exists calls script es s,
+    run_events (init false calls script) es = Some s /\
+    exists a, In a (s_acc s) /\ a_live a = false.
+Proof.
+  exists f12_calls, f12_script, (rev (d_evs (f12_run false))), (d_st (f12_run false)).
+  split.
+  - apply (drive_reachable false f12_calls f12_script 200 200).
+  - destruct f12_pinned_code_dead_access as [H _]. unfold dead_access in H.
+    apply existsb_exists in H. destruct H as (a & Ha & Hl). exists a. split; [exact Ha|].
+    destruct (a_live a); [discriminate|reflexivity].
+Qed.
+
+(* the hypotheses of the positive theorem are met by a non-trivial run: on the fixed code the F12 script
+   makes the reader adopt the follower's context and the follower take the new `keep waiting` branch *)
+Example f12_fixed_reaches_adoption :
+  exists es s t g, run_events (init true f12_calls f12_script) es = Some s /\
+                   adopted_by (pcof s t) = Some g /\ g <> t /\ pcof s g = PWaitLoop MAX64.
+Proof.
+  (* the prefix of the cooperative schedule up to the moment the follower has found its tag gone *)
+  set (es := rev (d_evs (f12_run true))).
+  assert (H : exists n, let s := match run_events (init true f12_calls f12_script) (firstn n es) with Some s => s | None => init true [] [] end in
+                         run_events (init true f12_calls f12_script) (firstn n es) = Some s /\
+                         adopted_by (pcof s 0%nat) = Some 1%nat /\ pcof s 1%nat = PWaitLoop MAX64).
+  { exists 20%nat. vm_compute. repeat split; reflexivity. }
+  destruct H as (n & H). cbv zeta in H. destruct H as (A & B & C).
+  eexists _, _, 0%nat, 1%nat. split; [exact A|]. split; [exact B|]. split; [discriminate|exact C].
+Qed.
